@@ -28,27 +28,27 @@ func TestMain(m *testing.M) {
 }
 
 type hstate struct {
-	name     string
-	sub      *lib.ScriptSub
-	pub      int // -1 none
-	handle   *message.Handler
-	addedBeforeRun bool
+	name            string
+	sub             *lib.ScriptSub
+	pub             int // -1 none
+	handle          *message.Handler
+	addedBeforeRun  bool
 	shouldBeStarted bool
-	stopped  bool
-	handled  map[string]bool
+	stopped         bool
+	handled         map[string]bool
 }
 
 type machine struct {
-	router   *message.Router
-	hs       []*hstate
-	pubs     []*lib.ScriptPub
-	mu       sync.Mutex
-	running  bool
-	ended    bool
-	runRet   chan error
-	cancel   context.CancelFunc
-	runCtx   context.Context
-	ops      []string
+	router     *message.Router
+	hs         []*hstate
+	pubs       []*lib.ScriptPub
+	mu         sync.Mutex
+	running    bool
+	ended      bool
+	runRet     chan error
+	cancel     context.CancelFunc
+	runCtx     context.Context
+	ops        []string
 	nontrivial bool
 }
 
@@ -56,7 +56,7 @@ func (m *machine) log(f string, a ...any) { m.ops = append(m.ops, fmt.Sprintf(f,
 
 func (m *machine) addHandler(t *rapid.T) {
 	if m.ended || len(m.hs) >= 5 {
-		t.Skip("cannot add")
+		return // not applicable in this state (cannot add): a no-op, never a skipped action
 	}
 	h := &hstate{name: fmt.Sprintf("h%d", len(m.hs)), sub: lib.NewScriptSub(""), handled: map[string]bool{}}
 	h.pub = rapid.IntRange(-1, len(m.pubs)-1).Draw(t, "publisher")
@@ -81,7 +81,7 @@ func (m *machine) addHandler(t *rapid.T) {
 
 func (m *machine) run(t *rapid.T) {
 	if m.running || m.ended {
-		t.Skip("already running")
+		return // not applicable in this state (already running): a no-op, never a skipped action
 	}
 	ctx, cancel := context.WithCancel(context.Background())
 	m.cancel = cancel
@@ -107,7 +107,7 @@ func (m *machine) run(t *rapid.T) {
 
 func (m *machine) runHandlers(t *rapid.T) {
 	if !m.running || m.ended {
-		t.Skip("not running")
+		return // not applicable in this state (not running): a no-op, never a skipped action
 	}
 	mode := rapid.SampledFrom([]string{"once", "twice", "concurrent"}).Draw(t, "runHandlersMode")
 	// "ctx will be propagated to all subscribers": handlers started later get the Run context as well
@@ -206,7 +206,7 @@ func (m *machine) publisherClosed(h *hstate) bool {
 
 func (m *machine) stop(t *rapid.T) {
 	if !m.running || m.ended {
-		t.Skip("not running")
+		return // not applicable in this state (not running): a no-op, never a skipped action
 	}
 	var cands []*hstate
 	for _, h := range m.hs {
@@ -215,7 +215,7 @@ func (m *machine) stop(t *rapid.T) {
 		}
 	}
 	if len(cands) == 0 {
-		t.Skip("nothing to stop")
+		return // not applicable in this state (nothing to stop): a no-op, never a skipped action
 	}
 	h := cands[rapid.IntRange(0, len(cands)-1).Draw(t, "stopHandler")]
 	select {
@@ -287,7 +287,7 @@ func (m *machine) allStarted() bool {
 
 func (m *machine) cancelCtx(t *rapid.T) {
 	if !m.running || m.ended || !m.allStarted() {
-		t.Skip("not running / unstarted handlers")
+		return // not applicable in this state (not running / unstarted handlers): a no-op, never a skipped action
 	}
 	m.cancel()
 	m.log("cancel Run context")
@@ -296,7 +296,7 @@ func (m *machine) cancelCtx(t *rapid.T) {
 
 func (m *machine) closeRouter(t *rapid.T) {
 	if !m.running || m.ended || !m.allStarted() {
-		t.Skip("not running / unstarted handlers")
+		return // not applicable in this state (not running / unstarted handlers): a no-op, never a skipped action
 	}
 	done := make(chan error, 1)
 	go func() { done <- m.router.Close() }()
